@@ -1130,11 +1130,12 @@ def _store_subscript(it, obj, k, v, aug=False):
         if isinstance(v, Vec) and isinstance(v.aligned, str) and obj.index == "range" and not v.fresh:
             raise Raised("IndexMisalignment", f"a Series carrying another table's row labels (index kind: {v.aligned}) is stored into column `{col}` of a table that was renumbered 0..n-1: "
                          "pandas aligns by label, so values land on the wrong rows / become NaN")
-        if mask is None and isinstance(v, Vec) and v.labels is not None and obj.labels is not None and (v.aligned or v.fresh) and list(v.labels) != list(obj.labels):
+        vlabels = (list(v.labels) if v.labels is not None else list(range(len(v.v))) if v.fresh else None) if isinstance(v, Vec) else None      # (a fresh Series is labelled 0..n-1)
+        if mask is None and isinstance(v, Vec) and vlabels is not None and obj.labels is not None and (v.aligned or v.fresh) and vlabels != list(obj.labels):
             # a labelled Series stored as a column: pandas aligns by label (missing labels -> NaN; a duplicated label cannot be aligned)
-            if len(set(v.labels)) != len(v.labels):
+            if len(set(vlabels)) != len(vlabels):
                 raise Raised("ValueError", "cannot reindex on an axis with duplicate labels")
-            newcol = [v.v[v.labels.index(l)] if l in v.labels else None for l in obj.labels]
+            newcol = [v.v[vlabels.index(l)] if l in vlabels else None for l in obj.labels]
             obj.cols[col] = Vec(newcol, aligned=True)
             if obj.exact:
                 obj.cols[col].exact = True
